@@ -14,7 +14,11 @@ MIN_EVALUATIONS = {"quick": 15000, "thorough": 15000}  # fewer oracle evaluation
 RULE = ("random controller projects (user tags of every kind, 0-3 programs with routines and tags, tasks, Map:/Cxn:, double-underscore and "
         "system-bit symbols, module I/O tags, aliases, UDTs nested <=3 with packed BOOLs on hidden hosts, arrays of structs, string types "
         "of capacity 1..4100, template ids inside and outside 0x100-0xEFF incl. both ends of either range, predefined types with a hidden CTL / Control status word "
-        "aliased by visible BOOL members and the bare-name template form, every fourth project a member array and a string capacity of 32767 / 32768 / 40000 / 65535 elements) are uploaded through open() / get_tag_list(None | '*' | program) "
+        "aliased by visible BOOL members and the bare-name template form, every fourth project a member array and a string capacity of 32767 / 32768 / 40000 / 65535 elements, "
+        "every fourth a family of types nested 9 to 14 levels with a single tag, every fourth a structure that has a string's shape but not its LEN / DATA names; "
+        "two thirds of the Program: / Routine: / Task: / Map: symbols carry the system-symbol types genuine controllers list (0x1068 / 0x106D / 0x1070 / 0x1069), "
+        "a fifth of the module names end in Map / Cxn / _Task / Program; a redundant second open() in a quarter of the scenarios and a get_plc_info() between "
+        "uploads in 40 % change nothing) are uploaded through open() / get_tag_list(None | '*' | program) "
         "under target-chosen symbol pagination {1,2,3,random,all} and template fragmentation {1..8,random,all}, firmware {16..32}; the "
         "uploaded tags / data_types / info are compared field by field with the project model, get_tag_info(tag | tag[i].member.member[j]...) "
         "must return the same definitions, every uploaded type class must decode "
